@@ -204,19 +204,33 @@ class Explorer:
         return True
 
     def blankish(self, path):
-        """paths whose tokens are all blank, or that could denote an item with a blank printed name"""
+        """paths that could denote an item with a BLANK printed name (such items carry no requirement): walking the
+        printed-name tree, a blank token meets a level that really has a blank-named child"""
         toks = re.split(r"\\{1,2}|/", path.strip())
 
-        def blank(t):
+        def norm(t):
             t = t.strip()
-            if self.akai and t.endswith(":"):
-                t = t[:-1].strip()
-            return t == ""
+            if self.akai:
+                t = t.upper()
+                if t.endswith(":"):
+                    t = t[:-1].strip()
+            return t
         if len(toks) > 1 and toks[-1] == "":
             toks = toks[:-1]
-        return any(blank(t) for t in toks)
+        cur = ()
+        for t in toks:
+            names = self.names_tree.get(cur)
+            if names is None:
+                return False
+            if norm(t) == "":
+                return any(norm(n) == "" for n in names)
+            hit = [n for n in names if norm(n) == norm(t)]
+            if not hit:
+                return False
+            cur = cur + (hit[0],)
+        return False
 
-    def check_bad_paths(self, maxlen):
+    def check_bad_paths(self, maxlen, small_pool=False):
         real = []
         for k, names in self.names_tree.items():
             for nm in names:
@@ -230,6 +244,8 @@ class Explorer:
                     seen.add(cand)
                     pool.append(cand)
         pool = pool[:10] + ["", " ", "..", ":", "\xe9", ".", "A:", "a"]
+        if small_pool:
+            pool = pool[:3] + ["", " ", "..", ":", "A:"]
         n = 0
         self.fresh()
         for k in range(1, maxlen + 1):
@@ -272,7 +288,7 @@ def run_case(case, rep, quick):
         if ex.ok:
             nv = ex.check_variants()
         if ex.ok:
-            nb = ex.check_bad_paths(1 if (quick and fmt != "cdda") else 2)
+            nb = ex.check_bad_paths(2, small_pool=(quick and fmt != "cdda"))
         if ex.ok:
             deep = sum(1 for t, _ in ex.nodes if len(t) >= 2)
             rep.case(case, klass=f"ok:{len(ex.nodes)}nodes", nontrivial=deep > 0 or len(ex.nodes) > 1)
